@@ -68,8 +68,10 @@ def plan(ctx):
         runs.append(("sim8", gen_subst(8, FIELDS, V5, [f2, f3], ["z", "p1"], V5, True, ["p1", "max"], ["z", "p2"]), (30, 8)))
         mc = dict(gen_subst(3, [f1], V5, [f2], ["p1"], ["z", "p1", "max"], True, ["p1"], ["p2"]))
     else:
-        # every sequence of 5 operations over the reduced alphabet (14 operations per step)
-        runs.append(("deep5", gen_subst(5, [f1], ["z"], [], [], ["p1"], True, ["p1"], ["p2"]), None))
+        # every sequence of 5 operations over 12 operations per step (write classes one(f1):=0 and all:=1; the empty
+        # write is in deep4). With the empty write as well (14 operations, 307 328 behaviours) the tier passed too but
+        # needed 20-25 min on the shared, loaded machine.
+        runs.append(("deep5", gen_subst(5, [f1], ["z"], [], [], ["p1"], False, ["p1"], ["p2"]), None))
         # every sequence of 4 operations over 6 write classes incl. the extremes (20 operations per step)
         runs.append(("deep4", gen_subst(4, [f2], ["min", "m1"], [f3], ["p1"], ["max", "z"], True, ["p1"], ["p2"]), None))
         runs.append(("wide2", gen_subst(2, FIELDS, V5, FIELDS, V5, V5, True, ["p1", "max"], ["z", "p2"]), None))
